@@ -216,7 +216,8 @@ def batch(case, wctx):
 
 def run(ctx):
     quick = ctx.tier == "quick"
-    n = 96 if quick else 4000
+    n = 96 if quick else 1500
+    n = int(os.environ.get("VP_DEV_N") or n)  # development aid: a prefix of the same case sequence
     rng = ctx.rng("gen")
     cases = [gen_case(rng, i, 0.12 if quick else 0.2, allow_list=True) for i in range(n)]
     per = 4 if quick else 40
@@ -227,7 +228,7 @@ def run(ctx):
                 "under the fake runtime; non-trivial = at least one host path remapped in the argv; "
                 "distinct = distinct generated case")
     results = ctx.pmap("vp.props.c27:batch", batches, nproc=8 if quick else 16,
-                       timeout=300 if quick else 1500)
+                       timeout=300 if quick else 7200)
     hist = {}
     for b in results:
         for r in b.get("multi", [b]):
